@@ -41,7 +41,9 @@ class P(vlib.Prop):
             "minimum GC intervals) -> MustRefuse, GC calls, lastGCDone rewritten, GC marker and log lines in order; "
             "EVERY Start/Shutdown sequence up to length 6 (quick) / 8 (thorough) on a limiter ticking every ms -> "
             "error, refCounter, closed channel, periodic checks observed; scripts of Start/Shutdown/usage-change/"
-            "MustRefuse on a limiter driven by its real ticker (CSys). proc (processor/memorylimiterprocessor): "
+            "MustRefuse on a limiter driven by its real ticker (CSys); the same with periodic checks HELD inside "
+            "CheckMemLimits (first reading / forced GC) while Start/Shutdown/MustRefuse happen, incl. the last Shutdown "
+            "arriving with a check in flight (CFine). proc (processor/memorylimiterprocessor): "
             "four processors (traces, metrics, logs, profiles) from one factory sharing one limiter, checks "
             "interleaved with Consume* calls into recording sinks with scripted downstream errors, Start/Shutdown "
             "scripts over the four processors, create sequences over several config objects (limiter sharing), "
